@@ -23,7 +23,7 @@ import (
 type hsScen struct {
 	T      string `json:"t"`      // streamJson | sse | stdio
 	Step   string `json:"step"`   // none | endpointStall | postStall | postHold | postReset | http500 | errorReply | garbage | initializedRefused (500; the Streamable client does not look at the status) | initializedReset | silent | exit
-	Close  string `json:"close"`  // after (Initialize has returned) | during (Initialize is in flight)
+	Close  string `json:"close"`  // after (Initialize has returned; a stalled step ends by the caller's 300 ms deadline) | afterCancel (… by the caller's cancel) | during (Close() while Initialize is in flight)
 	GetSSE bool   `json:"getSSE"` // Streamable: the listening stream is enabled
 }
 
@@ -59,7 +59,11 @@ func hsScens(c *hk.Ctx) []hsScen {
 		out = append(out, hsScen{T: "sse", Step: st, Close: "after"})
 	}
 	out = append(out, hsScen{T: "sse", Step: "postStall", Close: "during"}, hsScen{T: "sse", Step: "postHold", Close: "during"},
-		hsScen{T: "sse", Step: "getHold", Close: "during"}, hsScen{T: "sse", Step: "getHold", Close: "after"}, hsScen{T: "sse", Step: "endpointStall", Close: "during"})
+		hsScen{T: "sse", Step: "getHold", Close: "during"}, hsScen{T: "sse", Step: "getHold", Close: "after"}, hsScen{T: "sse", Step: "endpointStall", Close: "during"},
+		// a non-200 answer to the request that opens the stream / to the initialize POST, stalled inside its error body
+		hsScen{T: "sse", Step: "getErrStall", Close: "after"}, hsScen{T: "sse", Step: "getErrStall", Close: "afterCancel"}, hsScen{T: "sse", Step: "getErrStall", Close: "during"},
+		hsScen{T: "sse", Step: "getErr404Stall", Close: "after"}, hsScen{T: "sse", Step: "postErrStall", Close: "after"}, hsScen{T: "sse", Step: "endpointStall", Close: "afterCancel"},
+		hsScen{T: "streamJson", Step: "postErrStall", Close: "after"}, hsScen{T: "streamJson", Step: "postErrStall", Close: "afterCancel"}, hsScen{T: "streamJson", Step: "getErrStall", Close: "after", GetSSE: true})
 	for _, st := range []string{"none", "silent", "errorReply", "garbage", "exit"} {
 		out = append(out, hsScen{T: "stdio", Step: st, Close: "after"})
 	}
@@ -70,9 +74,9 @@ func hsScens(c *hk.Ctx) []hsScen {
 // stalls: the steps at which Initialize can only end through its caller's context
 func (s hsScen) stalls() bool {
 	switch s.Step {
-	case "endpointStall", "postStall", "postHold", "silent", "noread":
+	case "endpointStall", "postStall", "postHold", "silent", "noread", "postErrStall":
 		return true
-	case "getHold":
+	case "getHold", "getErrStall", "getErr404Stall":
 		return s.T == "sse"
 	}
 	return false
@@ -119,6 +123,9 @@ func runHandshake(sc hsScen, dir string) (hsObs, []problem) {
 	defer cancel()
 	done := make(chan initRes, 1)
 	go func() { _, e := cl.Initialize(ctx, nil); done <- initRes{e, time.Now()} }()
+	if sc.Close == "afterCancel" {
+		go func() { time.Sleep(300 * time.Millisecond); cancel() }() // part of the script: the caller gives up 300 ms into the stall
+	}
 	obs := hsObs{}
 	var ir *initRes
 	waitInit := func(d time.Duration) {
@@ -154,7 +161,7 @@ func runHandshake(sc hsScen, dir string) (hsObs, []problem) {
 				}
 			case <-time.After(5 * time.Second):
 			}
-		case sc.Step == "getHold" || sc.Step == "endpointStall":
+		case sc.Step == "getHold" || sc.Step == "endpointStall" || sc.Step == "getErrStall":
 			// the event stream's request is at the peer (no headers yet / headers and no endpoint event): Close(); the peer stays silent
 			select {
 			case <-p.streamUp:
@@ -241,6 +248,9 @@ func runHandshake(sc hsScen, dir string) (hsObs, []problem) {
 			// {endpoint, caller's context, 60 s}: Close() was none of them
 			probs = append(probs, problem{fp: "calls:sse:close_does_not_end_initialize_before_endpoint_event", what: "legacy SSE client: the event stream is up (headers received) and no endpoint event has come; Close() from another goroutine ends the stream and its reader, but Initialize keeps waiting (start() selects over the endpoint event, the caller's context and a 60 s timer only) until the caller's context ends",
 				observed: map[string]any{"waited_ms_after_close": (latencyCeiling + 200*time.Millisecond).Milliseconds()}})
+		} else if sc.T == "sse" && (sc.Step == "getErrStall" || sc.Step == "getErr404Stall") && sc.Close != "during" {
+			probs = append(probs, problem{fp: "calls:sse:initialize_ignores_context_in_error_body_of_stream_request", what: "legacy SSE client: the server answers GET /sse with a non-200 status and stalls inside the error body; the caller's context ends and Initialize does not return (the body is read on the stream's detached context and nothing watches the caller's context any more); Close() from another goroutine releases it",
+				observed: map[string]any{"step": sc.Step, "context_ended_by": sc.Close, "waited_ms_after_context_end": (latencyCeiling + 200*time.Millisecond).Milliseconds()}})
 		} else if sc.T == "sse" && sc.Step == "getHold" && sc.Close == "after" {
 			// (repaired in /repo 0002846; reported again if it returns) the stream request of the legacy SSE handshake was made with
 			// a context detached from the caller's: while the server has accepted GET /sse and sends no response headers, only
